@@ -28,3 +28,5 @@ mod c17;
 mod c18;
 #[cfg(kani)]
 mod exp;
+#[cfg(all(kani, feature = "zt"))]
+mod c09;
